@@ -496,6 +496,7 @@ func c12GenAllocs(t *rapid.T, w *c12World, trunk bool) []c12Alloc {
 	oneAt := rapid.IntRange(0, n-1).Draw(t, "default_at")
 	var out []c12Alloc
 	var vsws []*c12Vsw
+	podVsws := &c12VswReg{}
 	for i := 0; i < n; i++ {
 		a := c12Alloc{ENIID: fmt.Sprintf("eni-m%d", i), MAC: c12GenMAC(t), IfName: names[i%len(names)]}
 		if i >= len(names) {
@@ -515,17 +516,21 @@ func c12GenAllocs(t *rapid.T, w *c12World, trunk bool) []c12Alloc {
 			}
 		}
 		if vsw == nil {
-			vsw = &c12Vsw{p4: c12GenSubnet(t, false), used4: map[int]bool{}, used6: map[int]bool{}}
-			if dual {
-				vsw.p6 = c12GenSubnet(t, true)
-			}
-			vsws = append(vsws, vsw)
+			// vSwitches of one VPC do not overlap (an address is unique in the VPC)
+			vsw = podVsws.add(t, dual)
+			vsws = podVsws.list
 		}
 		a.CIDR4 = vsw.p4.String()
 		a.V4 = c12AddrAt(vsw.p4, int64(c12Probe(vsw.used4, c12GenOffsets(t, vsw.p4, 1)[0], c12MaxOff(vsw.p4)))).String()
-		if dual {
+		// on a dual-stack node the allocations of one pod need not have the same families:
+		// a member ENI may have been given no IPv6 address (its vSwitch may still have an
+		// IPv6 block, which the controller records all the same)
+		has6 := dual && rapid.IntRange(0, 2).Draw(t, "v4only") != 2
+		if has6 {
 			a.CIDR6 = vsw.p6.String()
 			a.V6 = c12AddrAt(vsw.p6, int64(c12Probe(vsw.used6, c12GenOffsets(t, vsw.p6, 1)[0], c12MaxOff(vsw.p6)))).String()
+		} else if dual && rapid.Bool().Draw(t, "keep_cidr6") {
+			a.CIDR6 = vsw.p6.String()
 		}
 		switch mode {
 		case "one":
@@ -533,7 +538,7 @@ func c12GenAllocs(t *rapid.T, w *c12World, trunk bool) []c12Alloc {
 		case "many":
 			a.Default = i == oneAt || rapid.Bool().Draw(t, "default")
 		}
-		a.Routes = c12GenRoutes(t, true, dual)
+		a.Routes = c12GenRoutes(t, true, has6)
 		if trunk {
 			a.Vid = rapid.IntRange(1, 4094).Draw(t, "vid")
 		}
@@ -1161,6 +1166,19 @@ func c12CheckReply(c *vt.Ctx, w *c12World, rpcName string, reply c12AnyReply) {
 		}
 	}
 
+	// self-consistency of one reply: an address stands for one interface
+	seenAddr := map[netip.Addr]string{}
+	for _, nc := range ncs {
+		for _, s := range []string{nc.GetBasicInfo().GetPodIP().GetIPv4(), nc.GetBasicInfo().GetPodIP().GetIPv6()} {
+			if a, ok := c12ParseAddr(s); ok {
+				if other, dup := seenAddr[a]; dup {
+					c.Fatalf("%s reply carries address %s on two interfaces (%q and %q)", rpcName, a, other, nc.GetIfName())
+				}
+				seenAddr[a] = nc.GetIfName()
+			}
+		}
+	}
+
 	var wants []*c12Want
 	switch {
 	case w.podENI():
@@ -1569,6 +1587,9 @@ func c12RunWorld(c *vt.Ctx, w c12World) {
 		for _, a := range w.Allocs {
 			if a.CIDR4 != "" && seen[a.CIDR4] {
 				c.Label("podeni-shared-vswitch")
+			}
+			if w.v6() && a.V6 == "" {
+				c.Label("podeni-mixed-families")
 			}
 			seen[a.CIDR4] = true
 		}
